@@ -557,7 +557,19 @@ func check(prop, tier string, seed int64, budget, workers, maxSeeds int, race, n
 					}
 					end := runWorker(wk, job, wrace, func(rl ResultLine) { done[rl.Seed] = true; agg.add(rl) })
 					if end.kind == "done" {
-						break
+						// the worker may have stopped early after a violation: hand the rest of the
+						// batch to a fresh process
+						var rest []int64
+						for _, s := range seeds {
+							if !done[s] {
+								rest = append(rest, s)
+							}
+						}
+						if len(rest) == 0 || len(rest) == len(seeds) {
+							break
+						}
+						seeds = rest
+						continue
 					}
 					// find the seed that was in progress
 					var cur int64 = -1
